@@ -35,6 +35,12 @@ Print Assumptions C13_pure_forward.
 
 (* freeze() writes only the weight; quantize() only re-parents modules and clears the OLD module's
    parameters; disable_extensions restores the switch in a finally block *)
+(* the only aten op with in-place semantics that has a quantized implementation is copy_ (used to load
+   weights): no registered op can write into a scale or payload that a module buffer aliases *)
+Theorem C13_no_inplace_ops : src_inplace_ops = ["aten.copy_"].
+Proof. exact tie_inplace_ops. Qed.
+Print Assumptions C13_no_inplace_ops.
+
 Theorem C13_write_sets :
   src_effects_freeze = ["store self.weight"] /\
   src_effects_quantize = ["call setattr"; "store qmodule.name"] /\
